@@ -2,6 +2,11 @@
 
 package req
 
+import (
+	"net/http"
+	"net/url"
+)
+
 // Re-exports for the verification harness of property C20 (authentication headers).
 // Compiled only with -tags verif; no existing line is changed.
 
@@ -61,3 +66,13 @@ func VerifParseChallenge(chal string) ([]string, error) {
 // VerifEscapeQuoted / VerifUnquoteParam re-export the quoted-string helpers of digest.go.
 func VerifEscapeQuoted(s string) string { return escapeQuoted(s) }
 func VerifUnquoteParam(v string) string { return unquoteParam(v) }
+
+// VerifCreateDigestAuth runs createDigestAuth itself on a 401 response carrying the challenge
+// as its (first) WWW-Authenticate header, received for a request with the given method and URL.
+func VerifCreateDigestAuth(chal string, hasChal bool, method string, u *url.URL, username, password string) (string, error) {
+	resp := &http.Response{StatusCode: http.StatusUnauthorized, Header: http.Header{}, Request: &http.Request{Method: method, URL: u}}
+	if hasChal {
+		resp.Header.Set("WWW-Authenticate", chal)
+	}
+	return createDigestAuth(resp, username, password)
+}
